@@ -257,6 +257,16 @@ def gen_cases(ctx):
         for big in (17, 33) if quick else (17, 33, 65):
             for d in ((big, 2, 3), (2, big, 3), (2, 3, big), (big, big + 3, 2), (2, big, big + 3), (big + 3, 2, big)):
                 cases.append(make_case(rng, op, d, "small", "tile-edge"))
+    # directed: both operands of a product read from ONE buffer with two shapes (the driver passes the same pointer whenever one
+    # operand's contents are a prefix of the other's)
+    for op in OPS3:
+        for d in itertools.product(range(1, 4), repeat=3):
+            c = make_case(rng, op, d, "small", "aliased-operands")
+            if len(c.X) >= len(c.Y):
+                c.Y = list(c.X[:len(c.Y)])
+            else:
+                c.X = list(c.Y[:len(c.X)])
+            cases.append(c)
     # random larger shapes (strides beyond the exhaustive box); thorough: 5 derived seeds
     hi = 16 if quick else 28
     for sub in range(1 if quick else 5):
